@@ -116,7 +116,8 @@ def gen_restore_spec(rng, k):
 
 def corner_specs():
     out = []
-    # (i) particle exactly on the upper box border, more than one root box
+    # (i) particle exactly on the upper box border, more than one root box: FIXED in /repo da62396 for exact root-cell
+    #     geometry (regression histories; a failure is a VIOLATION)
     for n, pts in [([2, 1, 1], [(1.0, 0.1, 0.2), (0.3, 0.3, 0.3), (-0.2, 0.1, 0.1)]),
                    ([1, 3, 1], [(0.1, 1.5, 0.2), (0.3, 0.3, 0.3), (-0.2, 0.1, 0.1)])]:
         out.append({"kind": "corner", "key": "tree:upper_box_border_multi_root", "rs": 1.0, "n": n, "boundary": "periodic", "gravity": "tree",
@@ -139,6 +140,11 @@ def corner_specs():
         out.append({"kind": "corner", "key": "tree_stale_leaf_after_last_particle_removed", "rs": 10.0, "n": [2, 1, 1], "boundary": "none", "gravity": "tree",
                     "dt": 0.01, "steps": 0, "pts": [], "ops": ops,
                     "what": "all %d particles removed one by one while a tree exists, then %d added" % (nrem, rest)})
+    # (iii) the border particle with a root size whose cell centres are rounded: same mechanism as (ii), same finding
+    out.append({"kind": "corner", "key": "tree:cell_centre_rounding", "rs": 0.3, "n": [2, 1, 1], "boundary": "periodic", "gravity": "tree",
+                "dt": 0.01, "steps": 2, "step": False, "pts": [(0.3, 0.039, 0.021), (-0.06, 0.03, 0.03), (0.09, -0.09, 0.06)],
+                "what": "a particle exactly at +boxsize/2 with a root size whose (root) cell centre is rounded: routed to the last root box (da62396) but "
+                        "fabs(x-c)>w/2 holds by one ulp; the re-insertion descends into the leaf being vacated"})
     # controls: the same situations where the code is fine (must pass)
     out.append({"kind": "corner", "key": "tree:corner_control", "rs": 1.0, "n": [1, 1, 1], "boundary": "periodic", "gravity": "tree", "dt": 0.01, "steps": 2,
                 "pts": [(0.5, 0.1, 0.2), (0.3, 0.3, 0.3), (-0.2, 0.1, 0.1), (0.0, 0.0, 0.0), (0.25, 0.25, 0.25), (-0.5, -0.5, -0.5)],
@@ -526,8 +532,9 @@ def run(ctx):
         "general case with re-insertion during the walk is validated only (heap model == library, checker on every dump, canonical-tree comparison, "
         "which rests on C15_wf_is_fresh_build for tie-free dumps)",
         "identical coordinates are excluded (the library reports an error and leaves the particle outside the tree)",
-        "known open defects (known_findings.json): particle exactly on the upper box border with several root boxes; particle exactly on a cell "
-        "centre whose child centre is rounded: the re-insertion descends into the leaf being vacated (particle lost from the tree / crash)",
+        "known open defect (known_findings.json): a particle exactly on a cell border (centre plane, or the box border) of a cell whose centre is "
+        "rounded in binary64: the re-insertion descends into the leaf being vacated (particle lost from the tree / crash); the upper box border "
+        "with several root boxes is fixed in /repo da62396 for exact root-cell geometry",
         "MPI, OpenMP, QUADRUPOLE builds not covered",
     ]
 
